@@ -550,6 +550,16 @@ pub fn c02(rec: &mut Rec, lm: &Landmarks, rng: &mut Rng, thorough: bool) {
             m.into_std();
         }
     }
+    // ... and every non-negative landmark total of the specification's boundary alphabet (century multiples, the
+    // 64-bit limits, 2^64 +/- 2) split into whole seconds and nanoseconds
+    for &x in &lm.i128s {
+        if x >= 0 && x / 1_000_000_000 <= u64::MAX as i128 {
+            m.from_std((x / 1_000_000_000) as u64, (x % 1_000_000_000) as u32);
+            m.total();
+            m.parts();
+            m.into_std();
+        }
+    }
     // random
     let nr = if thorough { 150_000 } else { 6_000 };
     for _ in 0..nr {
